@@ -7,6 +7,7 @@ package stubs
 import (
 	"context"
 	"fmt"
+	pkgerrors "github.com/pkg/errors"
 	"sync" // nosim
 	"time"
 
@@ -294,6 +295,7 @@ type ScriptProvider struct {
 	Items    int  // number of items; <0: unlimited until cancelled
 	ErrAt    int  // Run returns an error after this many items were handed out (-1: never)
 	ErrEnd   bool // Run returns an error when it ends normally (after the last item)
+	CtxKind  bool // the injected error is the component's own timeout: its cause is context.DeadlineExceeded
 	Block    bool // after the items, block until cancelled instead of closing
 	QueueLen int
 	sink     chan core.Ammo
@@ -303,6 +305,13 @@ type ScriptProvider struct {
 type ProviderError struct{ Msg string }
 
 func (e *ProviderError) Error() string { return e.Msg }
+
+func (p *ScriptProvider) fail(msg string) error {
+	if p.CtxKind {
+		return pkgerrors.WithMessage(context.DeadlineExceeded, msg+": own timeout")
+	}
+	return &ProviderError{msg}
+}
 
 func NewScriptProvider(l *Log, items int) *ScriptProvider {
 	return &ScriptProvider{Log: l, Items: items, ErrAt: -1, sink: make(chan core.Ammo, 1)}
@@ -321,7 +330,7 @@ func (p *ScriptProvider) Run(ctx context.Context, _ core.ProviderDeps) (err erro
 	defer close(p.sink)
 	for i := 0; p.Items < 0 || i < p.Items; i++ {
 		if p.ErrAt == i {
-			return &ProviderError{fmt.Sprintf("injected provider failure at item %d", i)}
+			return p.fail(fmt.Sprintf("injected provider failure at item %d", i))
 		}
 		select {
 		case p.sink <- i:
@@ -330,7 +339,7 @@ func (p *ScriptProvider) Run(ctx context.Context, _ core.ProviderDeps) (err erro
 		}
 	}
 	if p.ErrAt >= 0 && p.ErrAt >= p.Items && p.Items >= 0 {
-		return &ProviderError{fmt.Sprintf("injected provider failure at the end (%d items)", p.Items)}
+		return p.fail(fmt.Sprintf("injected provider failure at the end (%d items)", p.Items))
 	}
 	if p.Block {
 		<-ctx.Done()
@@ -357,6 +366,7 @@ type ScriptAggregator struct {
 	OpenErr  bool // Run fails at once
 	ErrAt    int  // Run fails after consuming this many samples (-1 never)
 	DropErr  bool // Run ends with a "N samples were dropped"-style error after cancel
+	CtxKind  bool // the injected error is the component's own timeout: its cause is context.DeadlineExceeded
 	Blocking bool // Report blocks when the queue is full (phout style) instead of dropping
 	queue    chan core.Sample
 	Got      int
@@ -366,6 +376,13 @@ type ScriptAggregator struct {
 type AggregatorError struct{ Msg string }
 
 func (e *AggregatorError) Error() string { return e.Msg }
+
+func (a *ScriptAggregator) fail(msg string) error {
+	if a.CtxKind {
+		return pkgerrors.WithMessage(context.DeadlineExceeded, msg+": own timeout")
+	}
+	return &AggregatorError{msg}
+}
 
 func NewScriptAggregator(l *Log, qlen int) *ScriptAggregator {
 	return &ScriptAggregator{Log: l, ErrAt: -1, queue: make(chan core.Sample, qlen)}
@@ -382,11 +399,11 @@ func (a *ScriptAggregator) Run(ctx context.Context, _ core.AggregatorDeps) (err 
 		a.Log.Add(e)
 	}()
 	if a.OpenErr {
-		return &AggregatorError{"injected aggregator open failure"}
+		return a.fail("injected aggregator open failure")
 	}
 	for {
 		if a.ErrAt >= 0 && a.Got >= a.ErrAt {
-			return &AggregatorError{fmt.Sprintf("injected aggregator failure after %d samples", a.Got)}
+			return a.fail(fmt.Sprintf("injected aggregator failure after %d samples", a.Got))
 		}
 		select {
 		case s := <-a.queue:
@@ -401,7 +418,7 @@ func (a *ScriptAggregator) Run(ctx context.Context, _ core.AggregatorDeps) (err 
 					coreutil.ReturnSampleIfBorrowed(s)
 				default:
 					if a.DropErr {
-						return &AggregatorError{"7 samples were dropped (injected)"}
+						return a.fail("7 samples were dropped (injected)")
 					}
 					return nil
 				}
